@@ -117,7 +117,9 @@ func runLifeScenario(sc *lifeScenario, schedule []lifeStep, seed int64) *lifeRun
 	}
 	sys := actor.NewSystem(opts...)
 	c := ctl.New()
-	c.Filter = func(point string, obj any) bool { return strings.HasPrefix(point, "sys.") && obj == any(sys) || point == "h.cancel" }
+	c.Filter = func(point string, obj any) bool {
+		return strings.HasPrefix(point, "sys.") && obj == any(sys) || point == "h.cancel"
+	}
 	c.BirthPoints["sys.g.park"] = true
 	c.ParkPoints["sys.g.park"] = true
 	c.ExitPoints["sys.g.exit"] = true
